@@ -238,6 +238,19 @@ def locate_gitattributes(scope=None):
     return gitattributes
 
 
+def has_notebook_attribute(content, attribute):
+    """Whether some line of a git attributes file (bytes) gives *.ipynb the attribute
+
+    A comment, or a rule for another pattern, that mentions the attribute
+    does not route notebooks to the driver.
+    """
+    for line in content.splitlines():
+        fields = line.split()
+        if fields and fields[0] == b'*.ipynb' and attribute in fields[1:]:
+            return True
+    return False
+
+
 def is_prefix_array(parent, child):
     if parent == child:
         return True
